@@ -496,7 +496,9 @@ def r8(ctx):
     from . import actorfw
     actorfw.claim(ctx, "C14.R8", handlers=tuple(actorfw.SPEC), clients=("insert_remote", "sync_process_message", "sync_initial_message", "insert_local", "delete_prefix", "get_exact", "get_many",
                   "has_news_for_us", "set_download_policy", "get_download_policy", "register_useful_peer", "get_sync_peers", "subscribe", "unsubscribe", "set_sync", "get_state", "open", "close",
-                  "drop_replica", "export_secret_key"), floor=60)
+                  "drop_replica", "export_secret_key"))
+    actorfw.check_stream(ctx, "C14.R8")
+    ctx.floor("C14.R8", 66)
 
 
 def r9(ctx):
